@@ -7,11 +7,16 @@ use std::collections::{BTreeSet, HashMap};
 
 pub type Asg = HashMap<String, Val>;
 
+thread_local! { static PLACEHOLDERS: std::cell::RefCell<HashMap<String, Val>> = std::cell::RefCell::new(HashMap::new()); }
+
+/// values of the user guide's placeholders (a symbolic constant of that name in a program stands for the value); per thread
+pub fn set_placeholders(m: HashMap<String, Val>) { PLACEHOLDERS.with(|p| *p.borrow_mut() = m); }
+
 fn pre(p: &asp::PrecomputedTerm) -> Val {
     match p {
         asp::PrecomputedTerm::Infimum => Val::Inf,
         asp::PrecomputedTerm::Numeral(n) => Val::Int(*n as i128),
-        asp::PrecomputedTerm::Symbol(s) => Val::Sym(s.clone()),
+        asp::PrecomputedTerm::Symbol(s) => PLACEHOLDERS.with(|p| p.borrow().get(s).cloned()).unwrap_or_else(|| Val::Sym(s.clone())),
         asp::PrecomputedTerm::Supremum => Val::Sup,
     }
 }
